@@ -46,7 +46,7 @@ def gates(tier):
         "min_decided": {a: 150 * k for a in APIS[:4]} | {"cfg.materialize(n)": 20 * k},
         "shapes": {c: 3 * k for c in ["eps_rule", "nullable_cycle", "unary_cycle", "left_recursive", "duplicate_rule",
                                       "start_on_rhs", "finitely_ambiguous", "sr:Poly", "sr:Q", "sr:Boolean", "sr:MaxPlus",
-                                      "sr:Log", "sr:Real", "sr:MaxTimes", "long-member-strings", "negative-weights", "gadget:zero-first-contribution"]},
+                                      "sr:Log", "sr:Real", "sr:MaxTimes", "long-member-strings", "negative-weights", "gadget:zero-first-contribution", "scale:big-grammar"]},
         # no gate on tie events: on the repaired tree agenda priorities are injective (0 ties observed);
         # the tie-break policies only matter once a change makes priorities collide
         "min_events": {"heap.pop": 1000},
@@ -81,6 +81,13 @@ def gen_case(rng, spec):
     if rng.random() < 0.03:
         return zero_contribution_gadget(rng)
 
+    if rng.random() < 0.06:
+        # scale: 10-16 nonterminals, 6-10 terminals, a head with 8-12 alternatives, bodies up to 5, unary chains of depth 6+
+        bigR = rng.choice(["Float", "Q", "Boolean", "MaxTimes", "Real", "Log", "MaxPlus"])
+        g = GG.gen_big_grammar(rng, recursion=bigR != "Q")
+        return {"g": {k: g[k] for k in ("S", "V", "rules")}, "R": bigR,
+                "maxlen": 2, "perm": rng.randrange(1 << 30) if rng.random() < 0.5 else None,
+                "rename": rng.choice([None, None, "int", "str", "tuple", "int0"]), "underflow": False, "scale": "big-grammar"}
     underflow = False
     big = rng.random() < 0.35
     g = GG.gen_grammar(rng, max_nt=7 if big else 5, max_rules=14 if big else 11)
@@ -149,7 +156,9 @@ def run_case(case, ctx):
         ctx.skip("case", f"oracle-not-applicable:{type(e).__name__}")
         return
     exact = bool(getattr(O.alg, "exact", False)) and "nullable_cycle" not in cls
-    strings = list(GG.strings_upto(g["V"], case["maxlen"]))
+    strings = GG.case_strings(g0, case["maxlen"], case.get("perm") or 11)
+    if case.get("scale"):
+        ctx.shape["scale:" + case["scale"]] += 1
     # plus a few longer members obtained by random derivation (independent of the library)
     longs = [x for x in GG.sample_members(g0, random.Random(case.get("perm") or 7), k=4) if x not in set(strings)]
     if longs:
